@@ -171,6 +171,21 @@ func c26muts(msg protoreflect.Message, steps []c26step, prefix string, depth int
 				})
 				if depth > 0 && msg.Has(fd) && msg.Get(fd).List().Len() > 0 {
 					c26muts(msg.Get(fd).List().Get(0).Message(), append(st, c26step{fd, 0}), path+"[0].", depth-1, out)
+					// a well-formed first element followed by a copy of it that carries one deviation: what a handler did
+					// for the first element before it met the bad one must not stay behind when the request is refused
+					var inner []c26mut
+					c26muts(msg.Get(fd).List().Get(0).Message(), append(st, c26step{fd, 1}), path+"[1].", depth-1, &inner)
+					for _, im := range inner {
+						im := im
+						fdc := fd
+						*out = append(*out, c26mut{im.path, "after-a-good-element:" + im.class, func(root protoreflect.Message) {
+							l := c26nav(root, st).Mutable(fdc).List()
+							if l.Len() == 1 {
+								l.Append(protoreflect.ValueOfMessage(proto.Clone(l.Get(0).Message().Interface()).ProtoReflect()))
+							}
+							im.apply(root)
+						}})
+					}
 				}
 			}
 		case fd.Kind() == protoreflect.MessageKind:
@@ -306,13 +321,14 @@ func TestC26(t *testing.T) {
 		}
 	}
 	r.Extra["rpcs"] = rn
-	r.Rule = fmt.Sprintf("%d RPCs (every unary handler of the Gateway except Heartbeat/Lock/Unlock/telemetry, plus GetByIndexStream, GetByIndexStreamFromMany, GetStream): two baseline requests built from the protobuf descriptors (full: every field, nested to depth 3, set to a plausible value; minimal: addressing fields only), then EVERY single-field deviation at every field path (field cleared; strings: empty, 1- and 2-part swamp names, empty parts, 4 parts, absent swamp, 70000-byte string, wildcard/double-dot paths; string lists: empty string, duplicates, oversized key; message fields: empty message; message lists: one empty element, duplicated element; enums: 99, -1, last; ints: -1/0/max; bytes: empty, invalid msgpack, truncated)%s — %d requests. Each request goes to the real handler of the in-process server against a persistent swamp dsk/c26/<n> holding two flushed records a=1, b=2. Oracle: the handler returns (no hang, no escaping panic) and never answers a request whose handling panicked as a success (the panic recovery of the gateway turns a panic into a nil response with a nil error, which the client receives as an empty success; recovered panics are observed through the gateway's own error log); the system lock is released; afterwards the swamp's records read the same before and after it is closed and re-loaded from its file (so nothing unloadable was written), the close itself returns, and the server still answers a Get. Non-trivial = requests with at least one deviation", len(rpcs), map[bool]string{true: "", false: "; thorough also every pair of deviations on SwampName/IslandID/Key/Keys"}[r.Quick()], len(items))
+	r.Rule = fmt.Sprintf("%d RPCs (every unary handler of the Gateway except Heartbeat/Lock/Unlock/telemetry, plus GetByIndexStream, GetByIndexStreamFromMany, GetStream): two baseline requests built from the protobuf descriptors (full: every field, nested to depth 3, set to a plausible value; minimal: addressing fields only), then EVERY single-field deviation at every field path (field cleared; strings: empty, 1- and 2-part swamp names, empty parts, 4 parts, absent swamp, 70000-byte string, wildcard/double-dot paths; string lists: empty string, duplicates, oversized key; message fields: empty message; message lists: one empty element, duplicated element; enums: 99, -1, last; ints: -1/0/max; bytes: empty, invalid msgpack, truncated)%s — %d requests. Each request goes to the real handler of the in-process server against a persistent swamp dsk/c26/<n> holding two flushed records a=1, b=2. Oracle: the handler returns (no hang, no escaping panic) and never answers a request whose handling panicked as a success (the panic recovery of the gateway turns a panic into a nil response with a nil error, which the client receives as an empty success; recovered panics are observed through the gateway's own error log); the system lock is released; a request that is refused with an error leaves the records exactly as they were (also when a well-formed list element precedes the malformed one); afterwards the swamp's records read the same before and after it is closed and re-loaded from its file (so nothing unloadable was written), the close itself returns, and the server still answers a Get. Non-trivial = requests with at least one deviation", len(rpcs), map[bool]string{true: "", false: "; thorough also every pair of deviations on SwampName/IslandID/Key/Keys"}[r.Quick()], len(items))
 	r.Assumptions = []string{"deviation bound 1 (2 on addressing fields in the thorough tier)", "single client; subscriptions, DestroyBulk (client streaming) and telemetry RPCs are not driven"}
 	r.Parallel(16, "TestC26", func() {
 		logs := &logCap{}
 		logs.install()
 		type res struct {
 			recovered          string
+			pre                string
 			respNil            bool
 			err                string
 			locked             bool
@@ -347,12 +363,13 @@ func TestC26(t *testing.T) {
 			rg.gw.Set(bg, &hydrapb.SetRequest{Swamps: []*hydrapb.SwampRequest{{IslandID: 1, SwampName: sw, CreateIfNotExist: true, Overwrite: true,
 				KeyValues: []*hydrapb.KeyValuePair{{Key: "a", Int32Val: p(int32(1))}, {Key: "b", Int32Val: p(int32(2))}}}}})
 			rg.flush(sw)
+			pre := read(rg, sw)
 			req := reflect.New(rp.req.Elem()).Interface().(proto.Message)
 			c26fill(req.ProtoReflect(), sw, it.base == "full", 3)
 			for _, m := range it.muts {
 				m.apply(req.ProtoReflect())
 			}
-			o := &res{}
+			o := &res{pre: pre}
 			out[i] = o
 			logs.reset()
 			func() {
@@ -484,6 +501,9 @@ func TestC26(t *testing.T) {
 				}
 				cls = kind
 				r.Fail("requests", fmt.Sprintf("records-differ-after-reload:%s:%s", rp.name, cls), fmt.Sprintf("%s (%s baseline) with %s: before the close the swamp reads {%s}, after close and reload {%s}", rp.name, it.base, it.label, o.before, o.after), cs)
+			}
+			if o.err != "" && o.before != o.pre && !isConfig(i) {
+				r.Fail("requests", fmt.Sprintf("refused-request-changed-the-records:%s:%s", rp.name, cls), fmt.Sprintf("%s (%s baseline) with %s: the request was refused (%s) but the swamp's records changed from {%s} to {%s}", rp.name, it.base, it.label, o.err, o.pre, o.before), cs)
 			}
 			if !o.aliveAfter {
 				r.Fail("requests", fmt.Sprintf("server-does-not-answer-afterwards:%s:%s", rp.name, cls), fmt.Sprintf("%s with %s: a Get after the request fails", rp.name, it.label), cs)
